@@ -37,7 +37,7 @@ ASSUMPTIONS = ['the label name contains no "-" and no feature other than the lab
                'aggregated table is checked against the scores written to feature_singles.tsv (the scores of the summary); '
                'tolerance 1e-9 * max(1, |expected|); file columns are read by position (name, score)']
 
-LABELS = ['label', 'y', 'is_click', 'LABEL']
+LABELS = ['label', 'y', 'is_click', 'LABEL', 'label', 'clicked(7d)', 'y[t+1]', 'conv+1', 'cost$', 'a.b|c']     # also names with regex metacharacters
 BASE_POOL = ['a', 'b', 'c', 'f1', 'f2', 'f10', 'BRAND', 'ANDROID', 'AND', 'HANDLE', 'brand', 'user_id', 'label2', 'labels',
              'Label', 'x y', 'price(usd)', 'f1_tr_sqrt', 'é', 'y', 'label', 'z;9', 'RAND_and', 'q']
 DASH_POOL = ['user-id', 'a-b', 'BRAND-NEW', 'x-(1; 2)']
@@ -101,6 +101,11 @@ def table_case(draw, orders=(1, 2, 3), and_bias=False):
         return [draw(st.integers(1, 500)), draw(st.sampled_from([100, 99, 50, 0]))]
     entities = [{'parts': [b], 'ann': ann()} for b in bases]
     entities += [{'parts': [bases[i] for i in c], 'ann': ann()} for c in combos]
+    if combos and draw(st.integers(0, 2)) == 0:
+        # the same combination listed in another constituent order as well (e.g. reference-model combinations, which are stored sorted,
+        # next to the column-order ones): two distinct rows of the table
+        for c in draw(st.lists(st.sampled_from(combos), unique=True, min_size=1, max_size=3)):
+            entities.append({'parts': [bases[i] for i in reversed(c)], 'ann': ann()})
     score = _score(draw(st.sampled_from(SCORE_MODES)))
     rows = []
     for ei in range(len(entities)):
